@@ -469,11 +469,21 @@ pub fn run_child(args: &[String], timeout_s: u64) -> Option<String> {
 /// Probe `image` (left untouched: the probe runs on a copy). Returns (now, recsize, impl line).
 pub fn probe_image(image: &str, scratch: &str, ttl: bool, allow: bool) -> (u64, u64, String) {
     std::fs::copy(image, scratch).unwrap();
-    let out = run_child(
+    let mut out = run_child(
         &["probe".into(), format!("path={scratch}"), format!("ttl={}", ttl as u8), format!("allow={}", allow as u8)],
         180,
     )
     .unwrap_or_else(|| "SPAWN-FAILED".into());
+    if out.contains("TIMEOUT") {
+        // an open that hangs does so again on the same bytes; a stalled machine (an fsync behind
+        // gigabytes of other processes' writes) does not: the verdict is the second attempt's
+        std::fs::copy(image, scratch).unwrap();
+        out = run_child(
+            &["probe".into(), format!("path={scratch}"), format!("ttl={}", ttl as u8), format!("allow={}", allow as u8)],
+            180,
+        )
+        .unwrap_or_else(|| "SPAWN-FAILED".into());
+    }
     let _ = std::fs::remove_file(scratch);
     let mut now = 0;
     let mut recsize = 0;
